@@ -277,6 +277,19 @@ def main(argv):
         problems.append("coq: theorem depends on non-stdlib axioms: " + ", ".join(bad_ax))
     if coq_ok and closed + (1 if axioms else 0) * 0 < 1 and not axioms:
         problems.append("coq: no Print Assumptions output under Props/%s.v" % pid)
+    coqchk = None
+    if tier == "thorough" and coq_ok and os.environ.get("VERIF_NO_COQCHK") != "1":
+        # independent re-check of the compiled theorems and everything they depend on
+        with Lock("coq"):
+            rc, cout = sh(["timeout", "3000", "coqchk", "-silent", "-o", "-Q", ".", "SV", "SV.Props.%s" % pid], cwd=COQ)
+        m = re.search(r"\* Axioms:(.*?)\n\s*\n\* Constants", cout, re.S)
+        chk_axioms = [a.strip() for a in (m.group(1) if m else "").splitlines() if a.strip() and a.strip() != "<none>"]
+        coqchk = {"exit": rc, "axioms": chk_axioms, "timed_out": rc == 124}
+        if rc not in (0, 124):
+            problems.append("coqchk rejects Props/%s.vo: %s" % (pid, cout[-300:]))
+        bad_chk = [a for a in chk_axioms if a.split(".")[-1] not in {x.split(".")[-1] for x in ALLOWED_AXIOMS}]
+        if bad_chk:
+            problems.append("coqchk: axioms outside the standard library: " + ", ".join(bad_chk))
     forb = forbidden_scan()
     if forb:
         problems.append("coq: forbidden vernacular: " + "; ".join(forb[:5]))
@@ -414,6 +427,7 @@ def main(argv):
             "checker_cmd": "cd /verif/coq && make -j16 Props/%s.vo  (coqc 8.16.1, full .vo build; Print Assumptions under every theorem)" % pid,
             "theorems": names,
             "print_assumptions": {"closed_under_global_context": closed, "axioms": axioms},
+            "coqchk": coqchk,
             "trusted_base": props.TRUSTED_COMMON + P.get("trusted", []),
             "evaluations": len(cases),
             "distinct_nontrivial": nontrivial,
